@@ -43,11 +43,11 @@ def case_fn(c):
         fails = oracle.check_frontends(c["model"], c["route"], c["vec"], seed=c.get("seed", 0), style=c.get("style", 0))
     elif kind == "grid":
         fails = oracle.check_grid_search(c["model"], c["grid"], c["param_map"], c["outputs"], vectorize=c["vec"], permute=c.get("permute", False),
-                                         as_frame=c.get("as_frame"), inputs=c.get("inputs"))
+                                         as_frame=c.get("as_frame"), inputs=c.get("inputs"), as_path=c.get("as_path", False))
     elif kind == "dde_field":
         fails = oracle.check_dde_field(c["model"], c["solver"], seed=c.get("seed", 0), vectorize=c.get("vec", False))
     elif kind == "dde_run":
-        fails = oracle.check_dde_run(c["model"], c["solver"], T=c.get("T", 2.0), dts=c.get("dts", 0.05))
+        fails = oracle.check_dde_run(c["model"], c["solver"], T=c.get("T", 2.0), dts=c.get("dts", 0.05), method=c.get("method"))
     elif kind == "expr_eval_seq":
         # several expressions evaluated one after the other in ONE process: a later one must not inherit anything from an earlier one
         fails = []
